@@ -7,11 +7,13 @@
 (*   p2panda/src/processor/pipeline.rs  Pipeline::process (track, send,     *)
 (*                                      ready) and the pipeline thread      *)
 (*                                      (recv, process, mark_as_done)       *)
-(* One action per lock acquisition / await point.  Critical sections under  *)
-(* the result mutex (`ready_result`) contain no await and touch nothing but *)
-(* the slot, so each is one atomic action; the tracker write lock is held   *)
-(* by `TaskTracker::mark_as_done` ACROSS an await (the result mutex and the *)
-(* notify), so it is an explicit variable.                                  *)
+(* One action per lock acquisition / await point.  BOTH locks are explicit:  *)
+(* the tracker write lock (held by `TaskTracker::mark_as_done` across       *)
+(* awaits) and the result mutex `ready_result` of every task, which is held *)
+(* by the writer (`Task::mark_as_done`) AND by every reader while it looks  *)
+(* at / clones the result (first check and re-read of `Task::ready`).  A    *)
+(* `lock().await` on a busy mutex is a blocked pc (`c_wait`, `t_wait`);     *)
+(* tokio's mutex is FIFO: on unlock the permit goes to the first waiter.    *)
 (*                                                                          *)
 (* tokio semantics used (tokio 1.53, sync/notify.rs):                       *)
 (*   - `Notify::notify_waiters()` wakes exactly the `Notified` futures that *)
@@ -44,6 +46,8 @@ VARIABLES
     result,    \* [1..MaxTasks -> result record]  Task.ready_result (tasks.rs:80)
     waiters,   \* [1..MaxTasks -> SUBSET Sub]     live Notified futures of Task.ready_signal
     woken,     \* SUBSET Sub            Notified futures completed by notify_waiters
+    rlock,     \* [1..MaxTasks -> "free" | s \in Sub | "pipe"]  holder of Task.ready_result's mutex
+    rq,        \* [1..MaxTasks -> Seq(Sub)]  submitters queued on that mutex, in order of arrival
     chan,      \* Seq([id, from])       pipeline_tx -> pipeline thread
     pc,        \* [Sub -> location]
     call,      \* [Sub -> Nat]          index of the current call (1..Len(Calls[s]))
@@ -54,7 +58,7 @@ VARIABLES
     ptask,     \* task removed by the running mark_as_done
     runs       \* Nat  number of events processed (identifies the processing run in a result)
 
-vars == <<tracker, tlock, ntasks, result, waiters, woken, chan, pc, call, held, ret, ppc, pcur, ptask, runs>>
+vars == <<tracker, tlock, ntasks, result, waiters, woken, rlock, rq, chan, pc, call, held, ret, ppc, pcur, ptask, runs>>
 
 NoEvent == [id |-> "none", from |-> "none"]
 
@@ -67,6 +71,8 @@ Init ==
     /\ result = [t \in 1..MaxTasks |-> None]
     /\ waiters = [t \in 1..MaxTasks |-> {}]
     /\ woken = {}
+    /\ rlock = [t \in 1..MaxTasks |-> "free"]
+    /\ rq = [t \in 1..MaxTasks |-> <<>>]
     /\ chan = <<>>
     /\ pc = [s \in Sub |-> IF Len(Calls[s]) = 0 THEN "finished" ELSE "track"]
     /\ call = [s \in Sub |-> 1]
@@ -88,21 +94,21 @@ Track(s) ==
               /\ tracker' = [tracker EXCEPT ![CurId(s)] = ntasks + 1]
               /\ held' = [held EXCEPT ![s] = ntasks + 1]
     /\ pc' = [pc EXCEPT ![s] = "send"]
-    /\ UNCHANGED <<tlock, result, waiters, woken, chan, call, ret, ppc, pcur, ptask, runs>>
+    /\ UNCHANGED <<tlock, result, waiters, woken, rlock, rq, chan, call, ret, ppc, pcur, ptask, runs>>
 
 \* pipeline.rs:168: pipeline_tx.send(input).await -- waits while the channel is full
 Send(s) ==
     /\ pc[s] = "send" /\ Len(chan) < ChanCap
     /\ chan' = Append(chan, [id |-> CurId(s), from |-> s])
     /\ pc' = [pc EXCEPT ![s] = IF RegisterFirst THEN "create" ELSE "check"]
-    /\ UNCHANGED <<tracker, tlock, ntasks, result, waiters, woken, call, held, ret, ppc, pcur, ptask, runs>>
+    /\ UNCHANGED <<tracker, tlock, ntasks, result, waiters, woken, rlock, rq, call, held, ret, ppc, pcur, ptask, runs>>
 
 \* `self.ready_signal.notified()`: from here on notify_waiters() reaches this future
 CreateNotified(s) ==
     /\ pc[s] = (IF RegisterFirst THEN "create" ELSE "window")
     /\ waiters' = [waiters EXCEPT ![held[s]] = @ \cup {s}]
     /\ pc' = [pc EXCEPT ![s] = IF RegisterFirst THEN "check" ELSE "await"]
-    /\ UNCHANGED <<tracker, tlock, ntasks, result, woken, chan, call, held, ret, ppc, pcur, ptask, runs>>
+    /\ UNCHANGED <<tracker, tlock, ntasks, result, woken, rlock, rq, chan, call, held, ret, ppc, pcur, ptask, runs>>
 
 Finish(s, r) ==
     /\ ret' = [ret EXCEPT ![s] = Append(@, r)]
@@ -111,43 +117,135 @@ Finish(s, r) ==
          ELSE call' = call /\ pc' = [pc EXCEPT ![s] = "finished"]
     /\ held' = [held EXCEPT ![s] = NoTask]
 
-\* tasks.rs:117-124: lock ready_result; Some -> return it (a created Notified is dropped)
-CheckSome(s) ==
-    /\ pc[s] = "check" /\ result[held[s]] # None
+\* unlock of the result mutex of task t: FIFO hand-over to the first queued submitter
+ReleaseR(t) ==
+    IF rq[t] = <<>>
+      THEN rlock' = [rlock EXCEPT ![t] = "free"] /\ rq' = rq
+      ELSE rlock' = [rlock EXCEPT ![t] = Head(rq[t])] /\ rq' = [rq EXCEPT ![t] = Tail(@)]
+
+AfterCheckPc == IF RegisterFirst THEN "await" ELSE "window"
+
+\* ---- first check of Task::ready: `self.ready_result.lock().await`, is_some?, clone, return / unlock
+\* the mutex is free: take it
+LockResult(s) ==
+    /\ pc[s] = "check" /\ rlock[held[s]] = "free"
+    /\ rlock' = [rlock EXCEPT ![held[s]] = s]
+    /\ pc' = [pc EXCEPT ![s] = "c_locked"]
+    /\ UNCHANGED <<tracker, tlock, ntasks, result, waiters, woken, rq, chan, call, held, ret, ppc, pcur, ptask, runs>>
+
+\* the mutex is busy (the writer, or ANOTHER READER of the same task): queue up and wait
+WaitResult(s) ==
+    /\ pc[s] = "check" /\ rlock[held[s]] # "free"
+    /\ rq' = [rq EXCEPT ![held[s]] = Append(@, s)]
+    /\ pc' = [pc EXCEPT ![s] = "c_wait"]
+    /\ UNCHANGED <<tracker, tlock, ntasks, result, waiters, woken, rlock, chan, call, held, ret, ppc, pcur, ptask, runs>>
+
+\* the previous holder's unlock handed the mutex over
+Granted(s) ==
+    /\ pc[s] = "c_wait" /\ rlock[held[s]] = s
+    /\ pc' = [pc EXCEPT ![s] = "c_locked"]
+    /\ UNCHANGED <<tracker, tlock, ntasks, result, waiters, woken, rlock, rq, chan, call, held, ret, ppc, pcur, ptask, runs>>
+
+ReadSome(s) ==
+    /\ pc[s] = "c_locked" /\ result[held[s]] # None
+    /\ pc' = [pc EXCEPT ![s] = "c_some"]
+    /\ UNCHANGED <<tracker, tlock, ntasks, result, waiters, woken, rlock, rq, chan, call, held, ret, ppc, pcur, ptask, runs>>
+
+ReadNone(s) ==
+    /\ pc[s] = "c_locked" /\ result[held[s]] = None
+    /\ pc' = [pc EXCEPT ![s] = "c_none"]
+    /\ UNCHANGED <<tracker, tlock, ntasks, result, waiters, woken, rlock, rq, chan, call, held, ret, ppc, pcur, ptask, runs>>
+
+\* clone, drop the guard, return (a created Notified is dropped)
+UnlockReturn(s) ==
+    /\ pc[s] = "c_some"
+    /\ ReleaseR(held[s])
     /\ Finish(s, result[held[s]])
     /\ waiters' = [waiters EXCEPT ![held[s]] = @ \ {s}]
     /\ woken' = woken \ {s}
     /\ UNCHANGED <<tracker, tlock, ntasks, result, chan, ppc, pcur, ptask, runs>>
 
-\* tasks.rs:117-124: lock ready_result; None -> unlock.  With the original order the lock is
-\* released here and nothing has been registered yet: the window (hook task.ready.after_check).
-CheckNone(s) ==
-    /\ pc[s] = "check" /\ result[held[s]] = None
-    /\ pc' = [pc EXCEPT ![s] = IF RegisterFirst THEN "await" ELSE "window"]
+\* None: drop the guard.  With the original order nothing has been registered yet: the window
+\* (hook task.ready.after_check).
+Unlock(s) ==
+    /\ pc[s] = "c_none"
+    /\ ReleaseR(held[s])
+    /\ pc' = [pc EXCEPT ![s] = AfterCheckPc]
     /\ UNCHANGED <<tracker, tlock, ntasks, result, waiters, woken, chan, call, held, ret, ppc, pcur, ptask, runs>>
 
-\* tasks.rs:130-135: notified().await completes, lock ready_result again, clone, return.
-\* (`expect` panics on None: modelled by returning None, see NoPanic.)
-AwaitReturn(s) ==
-    /\ pc[s] = "await" /\ s \in woken
+\* ---- after the wake-up: `notified.await` completes, `self.ready_result.lock().await` again
+WakeLock(s) ==
+    /\ pc[s] = "await" /\ s \in woken /\ rlock[held[s]] = "free"
     /\ woken' = woken \ {s}
+    /\ rlock' = [rlock EXCEPT ![held[s]] = s]
+    /\ pc' = [pc EXCEPT ![s] = "t_locked"]      \* hook task.ready.holding_result: guard held
+    /\ UNCHANGED <<tracker, tlock, ntasks, result, waiters, rq, chan, call, held, ret, ppc, pcur, ptask, runs>>
+
+WakeWait(s) ==
+    /\ pc[s] = "await" /\ s \in woken /\ rlock[held[s]] # "free"
+    /\ woken' = woken \ {s}
+    /\ rq' = [rq EXCEPT ![held[s]] = Append(@, s)]
+    /\ pc' = [pc EXCEPT ![s] = "t_wait"]
+    /\ UNCHANGED <<tracker, tlock, ntasks, result, waiters, rlock, chan, call, held, ret, ppc, pcur, ptask, runs>>
+
+GrantedTail(s) ==
+    /\ pc[s] = "t_wait" /\ rlock[held[s]] = s
+    /\ pc' = [pc EXCEPT ![s] = "t_locked"]
+    /\ UNCHANGED <<tracker, tlock, ntasks, result, waiters, woken, rlock, rq, chan, call, held, ret, ppc, pcur, ptask, runs>>
+
+\* clone, drop the guard, return (`expect` panics on None: modelled by returning None, see NoPanic)
+ReadReturn(s) ==
+    /\ pc[s] = "t_locked"
+    /\ ReleaseR(held[s])
     /\ Finish(s, result[held[s]])
-    /\ UNCHANGED <<tracker, tlock, ntasks, result, waiters, chan, ppc, pcur, ptask, runs>>
+    /\ UNCHANGED <<tracker, tlock, ntasks, result, waiters, woken, chan, ppc, pcur, ptask, runs>>
+
+\* ---- compositions: what ONE poll of the real future does when no schedule point lies inside
+\* the critical section (first check: lock, look, unlock in one go).  Not part of Next (they add
+\* no reachable state); used by the trace specification.
+CheckAtomic(s) ==
+    /\ pc[s] = "check" /\ rlock[held[s]] = "free"
+    /\ IF result[held[s]] # None
+         THEN /\ Finish(s, result[held[s]])
+              /\ waiters' = [waiters EXCEPT ![held[s]] = @ \ {s}] /\ woken' = woken \ {s}
+         ELSE /\ pc' = [pc EXCEPT ![s] = AfterCheckPc]
+              /\ UNCHANGED <<call, held, ret, waiters, woken>>
+    /\ UNCHANGED <<tracker, tlock, ntasks, result, rlock, rq, chan, ppc, pcur, ptask, runs>>
+
+GrantedCheckAtomic(s) ==
+    /\ pc[s] = "c_wait" /\ rlock[held[s]] = s
+    /\ ReleaseR(held[s])
+    /\ IF result[held[s]] # None
+         THEN /\ Finish(s, result[held[s]])
+              /\ waiters' = [waiters EXCEPT ![held[s]] = @ \ {s}] /\ woken' = woken \ {s}
+         ELSE /\ pc' = [pc EXCEPT ![s] = AfterCheckPc]
+              /\ UNCHANGED <<call, held, ret, waiters, woken>>
+    /\ UNCHANGED <<tracker, tlock, ntasks, result, chan, ppc, pcur, ptask, runs>>
 
 \* Beyond C14's wording: the caller drops the `process` future while it is suspended (between
-\* track and send, at the channel, in `ready`).  A created Notified is dropped with it.  The
+\* track and send, at the channel, in `ready` incl. while it waits for or holds the result
+\* mutex at an await point).  A created Notified and a held/queued lock go with it.  The
 \* submitter makes no further calls.
 CancelledRes == [id |-> "cancelled", run |-> 0]
 Cancel(s) ==
-    /\ s \in Cancellable /\ pc[s] \in {"send", "create", "check", "window", "await"}
+    /\ s \in Cancellable /\ pc[s] \in {"send", "create", "check", "window", "await", "c_wait", "t_wait", "t_locked"}
     /\ ret' = [ret EXCEPT ![s] = Append(@, CancelledRes)]
     /\ pc' = [pc EXCEPT ![s] = "finished"]
     /\ waiters' = [waiters EXCEPT ![held[s]] = @ \ {s}]
     /\ woken' = woken \ {s}
     /\ held' = [held EXCEPT ![s] = NoTask]
+    /\ IF pc[s] \in {"c_wait", "t_wait", "t_locked"}
+         THEN IF rlock[held[s]] = s
+                THEN ReleaseR(held[s])
+                ELSE /\ rq' = [rq EXCEPT ![held[s]] = SelectSeq(@, LAMBDA x : x # s)]
+                     /\ rlock' = rlock
+         ELSE UNCHANGED <<rlock, rq>>
     /\ UNCHANGED <<tracker, tlock, ntasks, result, chan, call, ppc, pcur, ptask, runs>>
 
-SubNext(s) == Track(s) \/ Send(s) \/ CreateNotified(s) \/ CheckSome(s) \/ CheckNone(s) \/ AwaitReturn(s)
+SubNext(s) ==
+    \/ Track(s) \/ Send(s) \/ CreateNotified(s)
+    \/ LockResult(s) \/ WaitResult(s) \/ Granted(s) \/ ReadSome(s) \/ ReadNone(s) \/ UnlockReturn(s) \/ Unlock(s)
+    \/ WakeLock(s) \/ WakeWait(s) \/ GrantedTail(s) \/ ReadReturn(s)
 
 ---------------------------------------------------------------------------
 (* Pipeline thread: `while let Some(op) = pipeline.next().await             *)
@@ -160,7 +258,7 @@ PRecv ==
     /\ pcur' = Head(chan) /\ chan' = Tail(chan)
     /\ runs' = runs + 1
     /\ ppc' = "remove"
-    /\ UNCHANGED <<tracker, tlock, ntasks, result, waiters, woken, pc, call, held, ret, ptask>>
+    /\ UNCHANGED <<tracker, tlock, ntasks, result, waiters, woken, rlock, rq, pc, call, held, ret, ptask>>
 
 \* tasks.rs:57-59: write lock, remove(&id) -> Some(task); the lock stays held
 PRemove ==
@@ -169,20 +267,41 @@ PRemove ==
     /\ tracker' = [tracker EXCEPT ![pcur.id] = NoTask]
     /\ tlock' = "pipe"
     /\ ppc' = "set"
-    /\ UNCHANGED <<ntasks, result, waiters, woken, chan, pc, call, held, ret, pcur, runs>>
+    /\ UNCHANGED <<ntasks, result, waiters, woken, rlock, rq, chan, pc, call, held, ret, pcur, runs>>
 
 \* tasks.rs:59-61: nothing tracked under this id (second event of a shared task): return
 PRemoveMissing ==
     /\ ppc = "remove" /\ tlock = "free" /\ tracker[pcur.id] = NoTask
     /\ ppc' = "idle" /\ pcur' = NoEvent
-    /\ UNCHANGED <<tracker, tlock, ntasks, result, waiters, woken, chan, pc, call, held, ret, ptask, runs>>
+    /\ UNCHANGED <<tracker, tlock, ntasks, result, waiters, woken, rlock, rq, chan, pc, call, held, ret, ptask, runs>>
 
-\* tasks.rs:106-109: lock ready_result, store Some(result), unlock
-PSet ==
-    /\ ppc = "set"
+\* tasks.rs:106-109: lock ready_result (waits while a reader holds it) ...
+PLockResult ==
+    /\ ppc = "set" /\ rlock[ptask] = "free"
+    /\ rlock' = [rlock EXCEPT ![ptask] = "pipe"]
+    /\ ppc' = "set_locked"
+    /\ UNCHANGED <<tracker, tlock, ntasks, result, waiters, woken, rq, chan, pc, call, held, ret, pcur, ptask, runs>>
+
+\* ... store Some(result) ...
+PWrite ==
+    /\ ppc = "set_locked"
+    /\ result' = [result EXCEPT ![ptask] = [id |-> pcur.id, run |-> runs]]
+    /\ ppc' = "set_written"
+    /\ UNCHANGED <<tracker, tlock, ntasks, waiters, woken, rlock, rq, chan, pc, call, held, ret, pcur, ptask, runs>>
+
+\* ... unlock
+PUnlockResult ==
+    /\ ppc = "set_written"
+    /\ ReleaseR(ptask)
+    /\ ppc' = "notify"
+    /\ UNCHANGED <<tracker, tlock, ntasks, result, waiters, woken, chan, pc, call, held, ret, pcur, ptask, runs>>
+
+\* composition of the three (one poll of the real future; used by the trace specification)
+PSetAtomic ==
+    /\ ppc = "set" /\ rlock[ptask] = "free"
     /\ result' = [result EXCEPT ![ptask] = [id |-> pcur.id, run |-> runs]]
     /\ ppc' = "notify"
-    /\ UNCHANGED <<tracker, tlock, ntasks, waiters, woken, chan, pc, call, held, ret, pcur, ptask, runs>>
+    /\ UNCHANGED <<tracker, tlock, ntasks, waiters, woken, rlock, rq, chan, pc, call, held, ret, pcur, ptask, runs>>
 
 \* tasks.rs:111: notify_waiters() -- existing Notified futures only, no permit is stored
 PNotify ==
@@ -190,16 +309,16 @@ PNotify ==
     /\ woken' = woken \cup waiters[ptask]
     /\ waiters' = [waiters EXCEPT ![ptask] = {}]
     /\ ppc' = "unlock"
-    /\ UNCHANGED <<tracker, tlock, ntasks, result, chan, pc, call, held, ret, pcur, ptask, runs>>
+    /\ UNCHANGED <<tracker, tlock, ntasks, result, rlock, rq, chan, pc, call, held, ret, pcur, ptask, runs>>
 
 \* tasks.rs:64: mark_as_done returns, the tracker write guard is dropped
 PUnlock ==
     /\ ppc = "unlock"
     /\ tlock' = "free"
     /\ ppc' = "idle" /\ pcur' = NoEvent /\ ptask' = NoTask
-    /\ UNCHANGED <<tracker, ntasks, result, waiters, woken, chan, pc, call, held, ret, runs>>
+    /\ UNCHANGED <<tracker, ntasks, result, waiters, woken, rlock, rq, chan, pc, call, held, ret, runs>>
 
-PipeNext == PRecv \/ PRemove \/ PRemoveMissing \/ PSet \/ PNotify \/ PUnlock
+PipeNext == PRecv \/ PRemove \/ PRemoveMissing \/ PLockResult \/ PWrite \/ PUnlockResult \/ PNotify \/ PUnlock
 
 ---------------------------------------------------------------------------
 AllFinished == \A s \in Sub : pc[s] = "finished"
@@ -236,7 +355,7 @@ NoLostWakeup ==
     \A s \in Sub :
         (/\ pc[s] \in {"window", "await"}
          /\ result[held[s]] # None
-         /\ ~(ppc = "notify" /\ ptask = held[s]))      \* the notify_waiters call is over
+         /\ ~(ppc \in {"set_written", "notify"} /\ ptask = held[s]))   \* the notify_waiters call is over
             => s \in woken
 
 \* Beyond C14: nothing stays in the tracker once everything is quiet.  Does NOT hold when a
@@ -251,8 +370,16 @@ TypeOK ==
     /\ woken \subseteq Sub
     /\ Len(chan) <= ChanCap
     /\ \A s \in Sub : held[s] \in 0..ntasks
-    /\ ppc \in {"idle", "remove", "set", "notify", "unlock"}
-    /\ (tlock = "pipe") <=> (ppc \in {"set", "notify", "unlock"})
+    /\ ppc \in {"idle", "remove", "set", "set_locked", "set_written", "notify", "unlock"}
+    /\ (tlock = "pipe") <=> (ppc \in {"set", "set_locked", "set_written", "notify", "unlock"})
+
+\* the result mutex: one holder, holder and waiters are where they should be, free => nobody queued
+MutexOK ==
+    \A t \in 1..MaxTasks :
+        /\ rlock[t] = "free" => rq[t] = <<>>
+        /\ rlock[t] = "pipe" => (ppc \in {"set_locked", "set_written"} /\ ptask = t)
+        /\ rlock[t] \in Sub => (held[rlock[t]] = t /\ pc[rlock[t]] \in {"c_locked", "c_some", "c_none", "t_locked", "c_wait", "t_wait"})
+        /\ \A k \in 1..Len(rq[t]) : held[rq[t][k]] = t /\ pc[rq[t][k]] \in {"c_wait", "t_wait"}
 
 \* a task that left the tracker is never re-inserted and gets its result exactly once
 ResultWrittenOnce == [][\A t \in 1..MaxTasks : result[t] # None => result'[t] = result[t]]_vars
